@@ -151,6 +151,8 @@ var vScripts = map[string][]string{
 	"race_txn": {"txn 61=200", "txn 62=200", "gcw 0 txn 61=40", "read"},
 	// an expired out-of-line entry: GC drops it and removes its file while the LSM still points there
 	"expired": {"txn 61=200@past", "txn 62=200", "read", "gc 0", "read"},
+	// a zero-length transactional value read through Txn.Get before and after its memtable is flushed
+	"txn_empty": {"txn 61=0", "read", "rotate", "flush", "read"},
 }
 
 var vScriptCfg = map[string]vcfg{
@@ -162,6 +164,7 @@ var vScriptCfg = map[string]vcfg{
 	"race_del":  {Buckets: 1, FileSize: 300, Threshold: 32},
 	"race_txn":  {Buckets: 1, FileSize: 300, Threshold: 32},
 	"expired":   {Buckets: 1, FileSize: 300, Threshold: 32},
+	"txn_empty": {Buckets: 1, FileSize: 300, Threshold: 32},
 }
 
 func runProg(c *corr.Ctx, cfg vcfg, prog []string, tag string) {
